@@ -87,6 +87,10 @@ def gen_scope(runner, tier, seed):
                 frames.append(eth(SMAC, CMAC, 0x86DD, ipv6(C6, dst6, 59, bytes([135, 0, 0, 0]) + b"\0" * 20)))
             for dst4 in (O4, S4):
                 frames.append(eth(SMAC, CMAC, 0x0800, ipv4(C4, dst4, 6, tcp(C4, dst4, 0x8700, 80, 1, 0, F_SYN))))
+            # neighbour solicitations whose IPv6 destination and target disagree about the self-IP list
+            for (d6, t6) in ((O6, S6), (S6, O6), ("2001:db8::42", S6), ("fe80::99", S6), ("ff02::1", S6), (solicited_node(O6), S6), (solicited_node(S6), O6)):
+                for m in (mac(SMAC), mcast_mac6(S6)):
+                    frames.append(eth(m, CMAC, 0x86DD, ipv6(C6, d6, 58, nd_ns(C6, d6, t6, b"\x01\x01" + mac(CMAC)), hlim=255)))
             if si == 0 or tier != "quick":
                 s.send(frames)
             else:
@@ -236,6 +240,26 @@ def gen_wellformed(runner, tier, seed):
             u = udp(p6.cip, p6.sip, 1000 + n, 3478, stun(1, bytes([n]) * 16))
             fr.append(p6.l3(17, u[:6] + struct.pack(">H", bad) + u[8:]))
             fr.append(eth(SMAC, CMAC, 0x0800, ipv4(C4, S4, 1, icmp_echo(n, 2, d), bad_csum=True)))
+    s.send(fr)
+    # requests with IPv4 options (IHL 6..15) and with an IHL below 5: the reply has its own header
+    s = runner.session(cfg_plain(), "wf requests with ipv4 options")
+    fr = []
+    for ihl, opts in ((6, b"\x01\x01\x01\x00"), (7, b"\x07\x07\x04\0\0\0\0\0"), (15, b"\x07\x27\x04" + b"\0" * 37), (8, b"\x44\x0c\x05\x00" + b"\0" * 8)):
+        fr.append(eth(SMAC, CMAC, 0x0800, ipv4(C4, S4, 1, icmp_echo(ihl, 1, b"abc"), ihl=ihl, options=opts)))
+        fr.append(eth(SMAC, CMAC, 0x0800, ipv4(C4, S4, 6, tcp(C4, S4, 1000 + ihl, 80, 5, 0, F_SYN), ihl=ihl, options=opts)))
+        fr.append(eth(SMAC, CMAC, 0x0800, ipv4(C4, S4, 17, udp(C4, S4, 1000 + ihl, 3478, stun(1, bytes([ihl]) * 16)), ihl=ihl, options=opts)))
+        fr.append(eth(SMAC, CMAC, 0x0800, ipv4(C4, S4, 6, tcp(C4, S4, 1000 + ihl, 80, 5, 9, F_FIN | F_ACK), ihl=ihl, options=opts)))
+    for ihl in (0, 1, 4):
+        fr.append(eth(SMAC, CMAC, 0x0800, ipv4(C4, S4, 1, icmp_echo(ihl, 1, b"abcd"), ihl=ihl)))
+        fr.append(eth(SMAC, CMAC, 0x0800, ipv4(C4, S4, 17, udp(C4, S4, 999, 3478, stun(1, b"\x09" * 16)), ihl=ihl)))
+    for ver in (0, 5, 6, 15):
+        fr.append(eth(SMAC, CMAC, 0x0800, ipv4(C4, S4, 1, icmp_echo(ver, 1, b"v"), version=ver)))
+    for ff in (0x0000, 0x2000, 0x2001, 0x00b9, 0x8000):     # fragments / reserved bit in the request
+        fr.append(eth(SMAC, CMAC, 0x0800, ipv4(C4, S4, 1, icmp_echo(1, 1, b"frag"), flags_frag=ff)))
+    for tc in (0x0ff00000, 0x000fffff):                      # IPv6 traffic class / flow label in the request
+        f6 = bytearray(p6.echo(1, 2, b"tc"))
+        f6[14:18] = struct.pack(">I", 0x60000000 | tc)
+        fr.append(bytes(f6))
     s.send(fr)
     # jumbo: the largest IPv4 datagram / IPv6 payload
     big4 = bytes(r.randrange(256) for _ in range(65535 - 20 - 8))
@@ -603,6 +627,18 @@ def gen_tcp_gate(runner, tier, seed):
             steps.append(("raw", F_FIN | F_ACK, r.choice([b"", b"", b"bye"]), None))
             steps.append(("raw", F_RST, b"", None))
             script.append((f, steps))
+        # every flag combination without PSH|ACK, on a validated and on a never-seen flow
+        if rd < 2:
+            sweep = []
+            fv = live[0] if live else None
+            for fl in range(512):
+                if fl & F_PSH and fl & F_ACK:
+                    continue
+                if fv is not None:
+                    sweep.append(("late", fv, fl))
+                sweep.append(("fresh", None, fl))
+        else:
+            sweep = []
         # interleave the per-flow scripts in a seeded random order
         frames = []
         idx = [0] * len(script)
@@ -615,6 +651,14 @@ def gen_tcp_gate(runner, tier, seed):
             if r.random() < 0.15:
                 frames.append(noise(r))
         s.send(frames)
+        fr = []
+        for kind, fv, fl in sweep:
+            if kind == "late":
+                fr.append(fv.raw(fl, r.choice([b"", b"", b"z"])))
+            else:
+                p = r.choice(peers)
+                fr.append(p.tcp(40000 + (fl % 20000), 80, r.randrange(1 << 32), r.randrange(1 << 32), fl, r.choice([b"", b"", b"z"])))
+        s.send(fr)
 
 
 def gen_interference(runner, tier, seed):
@@ -660,6 +704,12 @@ def gen_interference(runner, tier, seed):
             elif x < 0.45:
                 f = r.choice(live)
                 seq.append((f.raw(r.choice([F_ACK, F_SYN, F_RST, F_FIN | F_ACK])), None))  # non-data TCP on a live flow
+            elif x < 0.56:
+                # data with a wrong acknowledgement on a flow that never validated, sent twice
+                p = r.choice(peers)
+                fz = p.tcp(r.randrange(50000, 60000), 80, r.randrange(1 << 32), r.randrange(1, 1 << 32), F_PSH | F_ACK, r.choice(HTTP_REQS))
+                seq.append((fz, None))
+                seq.append((fz, None))
             elif x < 0.5:
                 k2 = r.randrange(len(plans))
                 # data with a wrong acknowledgement: part of that flow's own history if the flow is already validated
@@ -669,9 +719,10 @@ def gen_interference(runner, tier, seed):
             s.reset()
             idx = [i for i, (_, fk) in enumerate(seq) if fk == k]
             s.send([seq[i][0] for i in idx], pair=[i + 1 for i in idx])
-        s.reset()
-        idx = [i for i, (_, fk) in enumerate(seq) if fk is None]
-        s.send([seq[i][0] for i in idx], pair=[i + 1 for i in idx])
+        for i, (f, fk) in enumerate(seq):
+            if fk is None:
+                s.reset()                                   # each stateless frame alone, on an empty table
+                s.send([f], pair=i + 1)
         # the full interleaved history
         s.reset()
         s.send([f for f, _ in seq], pair=[i + 1 for i in range(len(seq))])
@@ -1304,6 +1355,12 @@ def c10_payloads(r, tier):
     for k in range(1, 9):
         out.append(("SMB1", smb1_negotiate([b"D%d" % i for i in range(k)] + [b"NT LM 0.12"])))
         out.append(("SMB2", smb2_negotiate([0x0202, 0x0210, 0x0300, 0x0302, 0x0311, 0x02ff, 0x0310, 0x0201][:k])))
+    # datagrams that complete an end-anchored signature and are also well-formed DNS messages
+    out.append(("STUN-empty", stun(1, b"\0" * 16)))                                                   # DNS: no questions
+    out.append(("STUN-empty", stun(1, b"\0\1\0\0\0\0\0\0\2ab\0\0\1\0\1")))                         # DNS: ab IN A, 4 bytes header overlap
+    out.append(("STUN-empty", b"\0\1\0\0" + b"\0\1\0\0\0\0\0\0" + b"\2ab\0\0\1\0\1"))                 # id=1 flags=0 qd=1: "ab" IN A
+    out.append(("STUN-change-request", b"\0\1\0\x08" + b"\0\0\0\0\0\0\0\0" + b"\0" * 8 + b"\0\3\0\4\0\0\0\2"))   # DNS: zero counts, trailing bytes
+    out.append(("STUN-change-request", b"\0\1\0\x08" + b"\0\1\0\0\0\0\0\0" + b"\1a\0\0\1\0\1\0" + b"\0\3\0\4\0\0\0\2"))
     # literal signatures
     for v in HTTP_VERBS:
         out.append(("HTTP", http_request(v, b"/" + rb(r, 3, list(range(97, 123))))))
